@@ -54,6 +54,43 @@ func (w *World) findCall(fn *ssa.Function, canon string) ssa.CallInstruction {
 			return c
 		}
 	}
+	// the call may have moved into a helper: look inside static module callees with
+	// their parameters bound to the arguments; the call site in fn is returned
+	return w.findCallDeep(fn, func(s string) bool { return s == canon }, 0)
+}
+
+// findCallDeep searches the bodies of fn's static module callees (two levels,
+// parameters bound to the caller's arguments) for a call whose canonical form
+// satisfies match, and returns the call site in fn through which it is reached.
+func (w *World) findCallDeep(fn *ssa.Function, match func(string) bool, depth int) ssa.CallInstruction {
+	if depth > 1 {
+		return nil
+	}
+	for _, c := range CallsIn(fn) {
+		cal := c.Common().StaticCallee()
+		if cal == nil || !w.InModule(cal) || cal.Blocks == nil || cal == fn || len(cal.Params) != len(c.Common().Args) {
+			continue
+		}
+		env := map[*ssa.Parameter]string{}
+		for j, p := range cal.Params {
+			env[p] = w.Canon(c.Common().Args[j])
+		}
+		w.inlineEnv = append(w.inlineEnv, env)
+		found := false
+		for _, c2 := range CallsIn(cal) {
+			if match(w.canonCall(c2.Common(), 0)) {
+				found = true
+				break
+			}
+		}
+		if !found && w.findCallDeep(cal, match, depth+1) != nil {
+			found = true
+		}
+		w.inlineEnv = w.inlineEnv[:len(w.inlineEnv)-1]
+		if found {
+			return c
+		}
+	}
 	return nil
 }
 
@@ -113,7 +150,19 @@ func (w *World) entryOnlyVia(b *ssa.BasicBlock, conds ...string) bool {
 
 // condCanonHolds: block b is dominated by the `want` edge of an If whose canonical condition is cond.
 func (w *World) condCanonHolds(b *ssa.BasicBlock, cond string, want int) bool {
-	return w.condHolds(b, want, func(c ssa.Value) bool { return w.Canon(c) == cond || w.CanonI(c) == cond })
+	if w.condHolds(b, want, func(c ssa.Value) bool { return w.Canon(c) == cond || w.CanonI(c) == cond }) {
+		return true
+	}
+	// the same condition in another spelling (operands swapped, inverted test with
+	// an early exit, Cmp/Lt/Equal, `== false`): compare as normalised atoms
+	a, ok := atomFromCanon(cond)
+	if !ok {
+		return false
+	}
+	if want < 0 {
+		a.Rel = relAll &^ a.Rel
+	}
+	return w.underFact(b, a)
 }
 
 const elem = `\[\(phi\(\(φ \+ 1\)\|-1\) \+ 1\)\]` // range element index
@@ -194,29 +243,47 @@ func b1(w *World, r *Report) {
 			}
 		}
 		r.Check(st != nil && nilSt && len(w.storesTo(da, "recv.TotalPower")) == 1, "B-1", "DelAllStakes:powers", "the list is emptied and every removed stake's power leaves TotalPower", "DelAllStakes does not subtract every removed stake's power from TotalPower", fnSite(w, da))
-		// call sites: SelfPower == 0 or the delegatee is deleted afterwards
-		n := 0
-		for _, cs := range w.nodeCallers(da) {
-			n++
-			rcv, _ := callRecvArgs(cs.Site.Common())
+		// call sites: SelfPower == 0 or the delegatee is deleted afterwards. When the
+		// call sits in a helper that receives the delegatee as a parameter, the
+		// condition is looked for at the helper's own call sites (recursively).
+		var siteOK func(caller *ssa.Function, site ssa.CallInstruction, rcv ssa.Value, depth int) bool
+		siteOK = func(caller *ssa.Function, site ssa.CallInstruction, rcv ssa.Value, depth int) bool {
 			rc := w.Canon(rcv)
-			key := "DelAllStakes:call-site:" + w.FName(cs.Caller)
-			zero := w.condCanonHolds(cs.Site.Block(), "("+rc+".SelfPower == 0)", 1)
-			deleted := false
-			for _, c := range CallsIn(cs.Caller) {
+			if w.condCanonHolds(site.Block(), "("+rc+".SelfPower == 0)", 1) {
+				return true
+			}
+			for _, c := range CallsIn(caller) {
 				for _, a := range w.ledgerArms(c) {
-					if a.Method == "DelFinality" && len(c.Common().Args) > 0 && w.Canon(c.Common().Args[len(c.Common().Args)-1]) == rc+".Key()" && instrReaches(cs.Site, c) {
-						// on every path after DelAllStakes
-						if len(exitsAvoiding(posOf(cs.Site), func(in ssa.Instruction) bool { return in == ssa.Instruction(c.(ssa.Instruction)) }, func(from, to *ssa.BasicBlock) bool { return true })) >= 0 {
-							deleted = w.postDominatesWithinIteration(c, cs.Site)
+					if a.Method == "DelFinality" && len(c.Common().Args) > 0 && w.Canon(c.Common().Args[len(c.Common().Args)-1]) == rc+".Key()" && instrReaches(site, c) {
+						if w.postDominatesWithinIteration(c, site) {
+							return true
 						}
 					}
 				}
 			}
-			r.Check(zero || deleted, "B-1", key, "DelAllStakes leaves SelfPower untouched: here SelfPower is 0 or the delegatee is deleted right after", "DelAllStakes is called where SelfPower may be non-zero and the delegatee survives: SelfPower would exceed the sum of its stakes", site(w, cs.Site))
+			if pi := paramIndexIn(caller, rcv); pi >= 0 && depth < 3 {
+				ups := w.nodeCallers(caller)
+				if len(ups) == 0 {
+					return false
+				}
+				for _, up := range ups {
+					if pi >= len(up.Site.Common().Args) || !siteOK(up.Caller, up.Site, up.Site.Common().Args[pi], depth+1) {
+						return false
+					}
+				}
+				return true
+			}
+			return false
 		}
-		if n < 2 {
-			r.Undecided("B-1", "DelAllStakes:call-sites", fmt.Sprintf("%d call sites found, 2 expected", n))
+		n := 0
+		for _, cs := range w.nodeCallers(da) {
+			n++
+			rcv, _ := callRecvArgs(cs.Site.Common())
+			key := "DelAllStakes:call-site:" + w.FName(cs.Caller)
+			r.Check(siteOK(cs.Caller, cs.Site, rcv, 0), "B-1", key, "DelAllStakes leaves SelfPower untouched: here (or at every call of this helper) SelfPower is 0 or the delegatee is deleted right after", "DelAllStakes is called where SelfPower may be non-zero and the delegatee survives: SelfPower would exceed the sum of its stakes", site(w, cs.Site))
+		}
+		if n < 1 {
+			r.Undecided("B-1", "DelAllStakes:call-sites", "no call site of DelAllStakes found")
 		}
 	}
 	ds := needFn(r, "B-1", w, fref{pkgStake, "Delegatee", "doSlashAll"})
@@ -322,36 +389,116 @@ func (w *World) postDominatesWithinIteration(to, from ssa.Instruction) bool {
 	return okAll
 }
 
-func b2(w *World, r *Report) {
-	eu := needFn(r, "B-2", w, fref{pkgStake, "StakeCtrler", "exeUnstaking"})
-	if eu != nil {
-		d := "phi(recv.delegateeLedger.Get|recv.delegateeLedger.GetFinality)(ledger.ToLedgerKey(p0.Tx.To))#0"
-		h := "p0.Tx.Payload.(*types.TrxPayloadUnstaking).TxHash"
-		frozen := "phi(recv.frozenLedger.Set|recv.frozenLedger.SetFinality)"
-		del := w.findCall(eu, d+".DelStake("+h+")")
-		set1 := w.findCall(eu, frozen+"("+d+".FindStake("+h+")#1)")
-		ok := del != nil && set1 != nil && instrDominates(del, set1)
-		if ok {
-			// every success return passes the frozen set
-			for _, ex := range exitsAvoiding(posOf(del), func(in ssa.Instruction) bool { return in == ssa.Instruction(set1.(ssa.Instruction)) }, nil) {
-				if rt, isR := ex.(*ssa.Return); isR && w.errState(rt) == triNil {
-					ok = false
-				}
+// frozenSink: handing a stake to the frozen (unbonding) ledger's Set/SetFinality.
+func (w *World) frozenSink() *sinkSpec {
+	isFrozenArms := func(arms []ledgerArm) bool {
+		if len(arms) == 0 {
+			return false
+		}
+		for _, a := range arms {
+			if (a.Method != "Set" && a.Method != "SetFinality") || !strings.HasSuffix(w.Canon(a.Recv), ".frozenLedger") {
+				return false
 			}
 		}
-		r.Check(ok, "B-2", "exeUnstaking:removed-stake-frozen", "the stake removed from the delegatee (found by the payload's tx hash) is recorded in the frozen ledger on every success path", "the stake removed by DelStake is not handed to the frozen ledger", fnSite(w, eu))
-		all := w.findCall(eu, d+".DelAllStakes()")
-		set2 := w.findCall(eu, frozen+"("+d+".DelAllStakes()[(phi((φ + 1)|-1) + 1)])")
-		r.Check(all != nil && set2 != nil && instrReaches(all, set2), "B-2", "exeUnstaking:all-stakes-frozen", "every stake force-released when the validator's own stake is gone is recorded in the frozen ledger", "stakes removed by DelAllStakes are not all handed to the frozen ledger", fnSite(w, eu))
+		return true
 	}
-	bb := needFn(r, "B-2", w, fref{pkgStake, "StakeCtrler", "BeginBlock"})
-	if bb != nil {
-		re := regexp.MustCompile(`^recv\.frozenLedger\.SetFinality\((.+)\.DelAllStakes\(\)` + elem + `\)$`)
-		cs := w.findCallMatch(bb, re)
-		re2 := regexp.MustCompile(`^(.+)\.DelAllStakes\(\)$`)
-		ds := w.findCallMatch(bb, re2)
-		ok := len(cs) == 1 && len(ds) == 1 && instrReaches(ds[0], cs[0])
-		r.Check(ok, "B-2", "BeginBlock:jailed-stakes-frozen", "every stake of a jailed validator is recorded in the frozen ledger", "stakes removed when a validator is jailed are not all handed to the frozen ledger", fnSite(w, bb))
+	return &sinkSpec{
+		isSink: func(c ssa.CallInstruction, arg int) bool {
+			return arg == len(c.Common().Args)-1 && isFrozenArms(w.ledgerArms(c))
+		},
+		isSinkFunc: func(v ssa.Value) bool { return isFrozenArms(w.ledgerArmsOfValue(v, nil)) },
+	}
+}
+
+func b2(w *World, r *Report) {
+	spec := w.frozenSink()
+	// every stake taken out of a delegatee must reach the frozen ledger on every
+	// successful path (value flow, helpers and function-valued setters followed)
+	sunk := func(fn *ssa.Function, v ssa.Value, from ssa.Instruction) (bool, string) {
+		res := w.mustSink(fn, v, from, spec, 0)
+		if res.ok && len(res.funcParams) > 0 {
+			// the destination is a function-typed parameter: every call site must pass a frozen-ledger setter
+			var up func(f *ssa.Function, params []int, depth int) (bool, string)
+			up = func(f *ssa.Function, params []int, depth int) (bool, string) {
+				cs := w.nodeCallers(f)
+				if len(cs) == 0 || depth > 2 {
+					return false, "the destination is chosen by the callers of " + w.FName(f) + ", which could not be enumerated"
+				}
+				for _, c := range cs {
+					for _, pi := range params {
+						if pi >= len(c.Site.Common().Args) {
+							return false, "call shape"
+						}
+						a := c.Site.Common().Args[pi]
+						if spec.isSinkFunc(a) {
+							continue
+						}
+						if qi := paramIndexIn(c.Caller, a); qi >= 0 {
+							if ok, why := up(c.Caller, []int{qi}, depth+1); !ok {
+								return false, why
+							}
+							continue
+						}
+						return false, "at " + w.InstrPos(c.Site) + " the destination passed is " + w.Canon(a) + ", not the frozen ledger's Set/SetFinality"
+					}
+				}
+				return true, ""
+			}
+			return up(fn, res.funcParams, 0)
+		}
+		return res.ok, res.why
+	}
+	eu := needFn(r, "B-2", w, fref{pkgStake, "StakeCtrler", "exeUnstaking"})
+	if eu != nil {
+		// the stake named by the payload's tx hash: found with FindStake(h), removed with DelStake(h)
+		var del, find *ssa.Call
+		for _, c := range CallsIn(eu) {
+			call, isCall := c.(*ssa.Call)
+			if !isCall {
+				continue
+			}
+			if w.callIs(c.Common(), fref{pkgStake, "Delegatee", "DelStake"}) {
+				del = call
+			}
+			if w.callIs(c.Common(), fref{pkgStake, "Delegatee", "FindStake"}) {
+				find = call
+			}
+		}
+		ok, why := false, "exeUnstaking does not find and remove the stake named by the payload"
+		if del != nil && find != nil {
+			_, da := callRecvArgs(del.Common())
+			_, fa := callRecvArgs(find.Common())
+			dr, _ := callRecvArgs(del.Common())
+			fr, _ := callRecvArgs(find.Common())
+			if len(da) == 1 && len(fa) == 1 && w.Canon(da[0]) == w.Canon(fa[0]) && w.Canon(dr) == w.Canon(fr) && strings.HasSuffix(w.Canon(da[0]), "TrxPayloadUnstaking).TxHash") {
+				if st := extractOf(find, 1); st != nil {
+					ok, why = sunk(eu, st, del)
+				}
+			} else {
+				why = "the stake removed (" + w.canonCall(del.Common(), 0) + ") is not the stake found (" + w.canonCall(find.Common(), 0) + ")"
+			}
+		}
+		r.Check(ok, "B-2", "exeUnstaking:removed-stake-frozen", "the stake removed from the delegatee (found by the payload's tx hash) is recorded in the frozen ledger on every success path", "the stake removed by DelStake is not handed to the frozen ledger: "+why, fnSite(w, eu))
+	}
+	// every list returned by DelAllStakes, wherever it is called
+	nAll := 0
+	for _, fn := range w.nodeFuncs() {
+		for _, c := range CallsIn(fn) {
+			call, isCall := c.(*ssa.Call)
+			if !isCall || !w.callIs(c.Common(), fref{pkgStake, "Delegatee", "DelAllStakes"}) {
+				continue
+			}
+			nAll++
+			ok, why := sunk(fn, call, call)
+			key := map[string]string{"stake.(*StakeCtrler).exeUnstaking": "exeUnstaking:all-stakes-frozen", "stake.(*StakeCtrler).BeginBlock": "BeginBlock:jailed-stakes-frozen"}[w.FName(fn)]
+			if key == "" {
+				key = w.FName(fn) + ":all-stakes-frozen"
+			}
+			r.Check(ok, "B-2", key, "every stake released by DelAllStakes here is recorded in the frozen ledger (each iteration hands its own stake over)", "stakes removed by DelAllStakes are not all handed to the frozen ledger: "+why, site(w, c))
+		}
+	}
+	if nAll < 1 {
+		r.Undecided("B-2", "DelAllStakes:sites", "no call of DelAllStakes found (forced unbonding and jailing expected)")
 	}
 	w.checkCallers(r, "B-2", fref{pkgStake, "Delegatee", "DelStake"}, map[string]string{"stake.(*StakeCtrler).exeUnstaking": "unstaking"}, 1)
 	w.checkCallers(r, "B-2", fref{pkgStake, "Delegatee", "DelAllStakes"}, map[string]string{"stake.(*StakeCtrler).exeUnstaking": "forced unbonding of delegators", "stake.(*StakeCtrler).BeginBlock": "downtime jailing"}, 2)
